@@ -40,6 +40,13 @@ ASSUMPTIONS = [
     "independent on the replicates of every cell and scale(x) = x - 1 exactly), or the same grid "
     "moved by one half (float columns; the matrix times 4 is then integral); rows shuffled; level "
     "counts 2..4, and 1 in the one-level-factor cases",
+    "columns the formula never mentions: seven of eight frames carry one to three extra columns u1..u3 "
+    "(float / str / Categorical) -- without missing values, with values missing at random (p = 0.3), "
+    "missing on EVERY replicate of one or two cells of the factorial (pattern 'cells'), or with one "
+    "column holding no value at all; every row is complete in the variables of the formula, so the "
+    "matrix must keep one row per row of the frame (checked first) and satisfy the same rank / "
+    "column-space facts on those rows; the frames given to common.evaluate_new_data carry the same "
+    "columns",
     "numeric atoms with several columns (poly(v, 2), bs(v, df=3); case kind 'multi-column-atoms'): four "
     "distinct values per numeric variable ({0, 1, 2, 4} for x, {1, 2, 3, 6} for z, or moved by one half), "
     "complete factorial x full grid; rank of X, of the reference F and of [X | F] by SVD on unit-length "
@@ -204,6 +211,53 @@ def get_frame(cats, nums, levels, shuffle_seed, grid="int"):
     return df
 
 
+# ------------------------------------------------------------------------------------------------
+# columns the formula never mentions (they must not matter: the matrix keeps one row per row of the
+# frame, whatever is missing in them)
+# ------------------------------------------------------------------------------------------------
+UNUSED_PATTERNS = ["none", "complete", "scattered", "scattered", "cells", "cells", "cells", "all-missing"]
+
+
+def add_unused(df, cats, nums, case):
+    """a copy of the complete-factorial frame `df` with one to three columns the formula does not
+    mention (u1, u2, u3: float / str / Categorical), per case["unused"]: 'complete' = no missing
+    value; 'scattered' = each entry missing with probability 0.3 (at least one); 'cells' = missing on
+    EVERY row of one or two cells of the factorial (all the replicates of a combination of the used
+    categorical levels; grid points of the numeric variables when the formula has no factor);
+    'all-missing' = one column without any value.  Deterministic in (shuffle, formula, pattern)."""
+    import numpy as np
+    import pandas as pd
+    pattern = case.get("unused")
+    if not pattern or pattern == "none":
+        return df
+    rng = rng_for(case.get("shuffle", 0), "c03", "unused", case["formula"], pattern)
+    n = len(df)
+    out = df.copy()
+    by = list(cats) or list(nums)
+    keys = list(zip(*[df[c].tolist() for c in by])) if by else [()] * n
+    cells = sorted(set(keys))
+    ncols = rng.randrange(1, 4)
+    for j in range(ncols):
+        if pattern == "complete":
+            miss = set()
+        elif pattern == "scattered":
+            miss = {i for i in range(n) if rng.random() < 0.3} or {rng.randrange(n)}
+        elif pattern == "cells":
+            gone = set(rng.sample(cells, min(len(cells), rng.choice([1, 1, 2]))))
+            miss = {i for i in range(n) if keys[i] in gone}
+        else:                                   # all-missing: the first column has no value at all
+            miss = set(range(n)) if j == 0 else {i for i in range(n) if rng.random() < 0.3}
+        kind = rng.choice(["float", "str", "cat"])
+        if kind == "float":
+            col = [np.nan if i in miss else rng.randrange(-20, 21) / 4 for i in range(n)]
+        else:
+            col = [None if i in miss else rng.choice(["p", "q", "r"]) for i in range(n)]
+            if kind == "cat":
+                col = pd.Categorical(col, categories=["r", "p", "q"])
+        out[f"u{j + 1}"] = col
+    return out
+
+
 def full_indicator(df, terms, intercept, grid="int"):
     """reference coding: every term coded with a complete set of level indicators (times its numeric
     factors), plus the constant when the model has an intercept; integer columns (on the half grid
@@ -331,6 +385,8 @@ def observe(case):
     nums = sorted({atom_info(a)[2] for a in atoms if atom_info(a)[0] == "n"})
     grid = case.get("grid", "int")
     df = get_frame(cats, nums, case["levels"], case.get("shuffle", 0), grid)
+    # columns the formula does not mention, some with missing values (never touches the cached frame)
+    df = add_unused(df, cats, nums, case)
     out = {"rows": len(df)}
     # the family as the resolver built it (before evaluation)
     try:
@@ -410,6 +466,12 @@ def rank_facts(M, df, terms, intercept, case, cats, nums):
         out["integral"] = True
         out["ncols"] = int(M.shape[1])
         out["nrows"] = int(M.shape[0])
+        if M.shape[0] != len(df) or not np.isfinite(M).all():
+            # rows lost (or entries that are no numbers): no column space on the rows of the frame
+            out["rank"], out["rank_full"], out["rank_joint"] = -1, -1, -1
+            out["rank_ambiguous"] = False
+            out["sv_gaps"] = {}
+            return out
         F = full_indicator_float(df, terms, intercept)
         rx, ax, gx = float_rank(M)
         rf, af, gf = float_rank(F)
@@ -780,6 +842,11 @@ def gen_cases(tier, seed):
     for c in cases + wide_cases:
         if rng_p.random() < share:
             c["predict"] = True
+    # columns the formula never mentions (own PRNG stream): none / complete / with missing values
+    # scattered, on whole cells of the factorial, or everywhere
+    rng_u = rng_for(seed, "c03", "unused-columns")
+    for c in cases + dist_cases + wide_cases:
+        c["unused"] = rng_u.choice(UNUSED_PATTERNS)
     return cases + dist_cases + wide_cases
 
 
@@ -841,7 +908,9 @@ def explore(tier, seed, res=None, replay=None):
                 "written term by term and (kind distributive/...) with ':' '*' '/' over a parenthesised "
                 "sum.  Prediction stage: common.evaluate_new_data on the training frame and on a "
                 "row-permuted copy, same rank / column-space facts (sample of the cases in quick, all "
-                "in thorough, every distributive case)")
+                "in thorough, every distributive case).  Frames carry columns the formula does not "
+                "mention, with missing values scattered / on whole cells / everywhere (case key 'unused'): "
+                "one matrix row per frame row, same rank facts")
     procs = int(os.environ.get("VERIF_PROCS", "6" if tier == "quick" else "12"))
     procs = max(1, min(procs, os.cpu_count() or 1))
 
@@ -933,6 +1002,9 @@ def explore(tier, seed, res=None, replay=None):
             res.count("grid:" + c["grid"])
         if c.get("predict"):
             case["predict"] = True
+        if c.get("unused"):
+            case["unused"] = c["unused"]
+            res.count("unused-columns:" + c["unused"])
         if "md_err" in io or io.get("md") != c["terms"]:
             # the resolver did not produce the intended family: not a C03 case (term algebra, C02)
             res.count("skipped:resolver-family-differs")
@@ -972,7 +1044,11 @@ def explore(tier, seed, res=None, replay=None):
             if io.get("float_path"):
                 facts["sv_gaps"] = io["sv_gaps"]
                 res.count("float-path (multi-column numeric atoms)")
-            if not io["integral"]:
+            if io["nrows"] != io["rows"]:
+                why = (f"the matrix has {io['nrows']} rows, the frame {io['rows']}: every row is complete in "
+                       "the variables of the formula (missing values only in columns it does not mention), "
+                       "so the model space lives on all the rows of the data")
+            elif not io["integral"]:
                 why = "harness assumption broken: matrix entries are not integers"
             elif io.get("rank_ambiguous"):
                 why = ("floating-point rank not clear-cut: a singular value of X, F or [X | F] lies "
@@ -1003,7 +1079,7 @@ def explore(tier, seed, res=None, replay=None):
         if why:
             finding = None
             if i_view == m_view and not why.startswith(("bridge", "harness", "partitioning", "number", "floating",
-                                                        "labels")):
+                                                        "labels", "the matrix has")):
                 for cls, fid in FINDING_OF_CLASS:
                     if cls in classes:
                         finding = fid
